@@ -48,6 +48,9 @@ fn main() {
         ("replay", "bin_text") => props::bin_text::replay(&args),
         ("drive", "bin_text") => props::bin_text::drive(&args),
         ("replay", "xls_merge") => props::xls_merge::replay(&args),
+        ("replay", "ovba") => props::vba::replay_ovba(&args),
+        ("replay", "vbadir") => props::vba::replay_vbadir(&args),
+        ("drive", "ovba") => props::vba::drive(&args),
         ("replay", "de") => props::de::replay(&args),
         ("drive", "de") => props::de::drive(&args),
         ("replay", "cfb") => isolate::run_replay(&args, props::cfb::replay),
